@@ -220,6 +220,7 @@ class World:
         self.consts = {}
         self.owned = []
         self.assumed_ownership = set()
+        self.assumed_clauses = set()
         self.load_contracts()
 
     # ------------------------------------------------------------ loading
@@ -262,6 +263,13 @@ class World:
                         self.specs[sf.name] = sf
                     elif "lemma" in decs:
                         self.lemmas[st.name] = Lemma(st, path)
+                elif isinstance(st, ast.Expr) and isinstance(st.value, ast.Call) and \
+                        isinstance(st.value.func, ast.Attribute) and st.value.func.attr == "update" and \
+                        isinstance(st.value.func.value, ast.Name):
+                    tgt = {"FIELD_TYPES": self.field_types, "GHOST_FIELDS": self.ghost_fields,
+                           "EXTERNAL_CLASSES": self.ext_classes}.get(st.value.func.value.id)
+                    if tgt is not None:
+                        tgt.update(ast.literal_eval(st.value.args[0]))
                 elif isinstance(st, ast.Assign) and isinstance(st.targets[0], ast.Name):
                     n = st.targets[0].id
                     if n == "FIELD_TYPES":
@@ -509,6 +517,10 @@ class World:
         return out
 
     def array_const(self, key):
+        if key == "GLen":
+            return z3.Const("GLen@0", z3.ArraySort(Ref, IntS))
+        if key == "GStr":
+            return z3.Const("GStr@0", z3.ArraySort(Ref, z3.ArraySort(IntS, StrS)))
         if key == "LLen":
             return z3.Const("LLen@0", z3.ArraySort(Ref, IntS))
         if key == "LStr":
@@ -1344,6 +1356,12 @@ class World:
         finally:
             fv.reveal_strip = saved
         return mk_bool(True)
+
+    def bi_newer(self, e, ctx, fv):
+        """spec: newer(a, b) - object a was allocated after object b"""
+        a = fv.eval(e.args[0], ctx)
+        b = fv.eval(e.args[1], ctx)
+        return mk_bool(birth(a.t) > birth(b.t))
 
     def bi_cur(self, e, ctx, fv):
         """spec: cur(old.x.y) - the same object, viewed in the current state"""
